@@ -113,6 +113,43 @@ def _canon(gates):
     return out
 
 
+def _snap(qc):
+    """everything observable of a circuit's operation list (gates and measurements), for the 'input is left unchanged' clause"""
+    out = []
+    for g in qc.gates:
+        def lst(x):
+            return None if x is None else [int(v) for v in x]
+        a = getattr(g, "arg_value", None)
+        out.append([type(g).__name__, str(getattr(g, "name", None)), lst(getattr(g, "targets", None)), lst(getattr(g, "controls", None)),
+                    None if a is None else repr([complex(x) for x in a] if isinstance(a, (list, tuple, np.ndarray)) else complex(a)),
+                    lst(getattr(g, "classical_controls", None)), getattr(g, "control_value", None), getattr(g, "classical_control_value", None),
+                    repr(getattr(g, "arg_label", None)), repr(getattr(g, "classical_store", None))])
+    return [qc.N, out]
+
+
+def oracle_unchanged(inp, impl):
+    """resolve_gates / transpile must leave the circuit they are called on as it was, and a second call on the same object
+    must give the same result (the property compares the decomposition with THE circuit, whenever it is looked at)"""
+    fails = []
+    x = impl[-1] if isinstance(impl[-1], dict) else None
+    if not x:
+        return fails
+    if x["before"] != x["after"]:
+        diff = [[b, a] for b, a in zip(x["before"][1], x["after"][1]) if b != a][:2]
+        if len(x["before"][1]) != len(x["after"][1]):
+            diff.append(["length", len(x["before"][1]), len(x["after"][1])])
+        fails.append(("the call changed the circuit it was called on", dict(changed=diff), "input circuit unchanged"))
+    if "basis_before" in x and x["basis_before"] != x["basis_after"]:
+        fails.append(("the call changed the basis list it was given", [x["basis_before"], x["basis_after"]], "basis argument unchanged"))
+    if "second" in x:
+        first = (impl[0], impl[1] if impl[0] == "ok" else None)
+        second = (x["second"][0], x["second"][1] if x["second"][0] == "ok" else None)
+        if first != second:
+            fails.append(("decomposing the same circuit object twice gives different results",
+                          dict(first=_show(impl[:2]), second=_show(x["second"])), "equal results"))
+    return fails
+
+
 PROCESSORS = ["LinearSpinChain", "CircularSpinChain", "SCQubits", "DispersiveCavityQED"]
 
 
@@ -124,15 +161,18 @@ def run_transpile(inp):
         qc = _mk_circuit(inp)
     except Exception as e:
         return ("unbuildable", repr(e), None)
+    extra = dict(before=_snap(qc))
     try:
         res = proc.transpile(qc)
     except Exception as e:
-        return ("rejected", type(e).__name__ + ": " + str(e)[:80], list(proc.native_gates or []))
-    return ("ok", _canon(res.gates), list(proc.native_gates or []))
+        extra["after"] = _snap(qc)
+        return ("rejected", type(e).__name__ + ": " + str(e)[:80], list(proc.native_gates or []), extra)
+    extra["after"] = _snap(qc)
+    return ("ok", _canon(res.gates), list(proc.native_gates or []), extra)
 
 
 def oracle_transpile(inp, impl):
-    fails = []
+    fails = oracle_unchanged(inp, impl)
     if impl[0] == "rejected":
         fails.append(("transpile rejects a circuit of resolvable gates", impl[1], "decomposed circuit"))
         return fails
@@ -151,17 +191,27 @@ def oracle_transpile(inp, impl):
 
 
 def run_impl(inp):
-    """-> ("ok", canonical gate list) | ("rejected", exception text)"""
+    """-> ("ok", canonical gate list, extra) | ("rejected", exception text, extra); extra = snapshots of the input circuit before
+    and after the call, and the outcome of a second call on the same circuit object"""
     try:
         qc = _mk_circuit(inp)
     except Exception as e:  # the input itself cannot be built: not a case
         return ("unbuildable", repr(e))
-    try:
-        b = inp.get("basis")
-        res = qc.resolve_gates() if b is None else qc.resolve_gates(basis=(list(b) if isinstance(b, list) else b))
-    except Exception as e:
-        return ("rejected", type(e).__name__ + ": " + str(e)[:80])
-    return ("ok", _canon(res.gates))
+    b = inp.get("basis")
+
+    def call(arg):
+        try:
+            res = qc.resolve_gates() if b is None else qc.resolve_gates(basis=arg)
+        except Exception as e:
+            return ("rejected", type(e).__name__ + ": " + str(e)[:80])
+        return ("ok", _canon(res.gates))
+    arg = list(b) if isinstance(b, list) else b
+    extra = dict(before=_snap(qc), basis_before=repr(arg))
+    first = call(arg)
+    extra["after"] = _snap(qc)
+    extra["basis_after"] = repr(arg)
+    extra["second"] = call(list(b) if isinstance(b, list) else b)
+    return first + (extra,)
 
 
 # ------------------------------------------------------------------------------------------------
@@ -216,7 +266,7 @@ def well_formed(g):
 
 def oracle(inp, impl):
     """-> list of (what, observed, expected) failures of the property on this input"""
-    fails = []
+    fails = oracle_unchanged(inp, impl)
     basis = inp.get("basis")
     if inp.get("measure") or not all(well_formed(g) for g in inp["gates"]):
         return fails
@@ -385,7 +435,7 @@ def same(impl, model):
 
 def _show(r):
     if r[0] != "ok":
-        return list(r)
+        return list(r[:2])
     return ["ok", [[g[0], g[1], g[2], [round(x.real, 12) if abs(x.imag) < 1e-15 else str(x) for x in g[3]]] for g in r[1]]]
 
 
@@ -442,6 +492,28 @@ def gen_inputs(ctx):
         for b in specs:
             for t, c in placements(name, 3, rng, ctx.thorough or name in ("TOFFOLI", "FREDKIN", "SWAP", "ISWAP", "CNOT", "CSIGN")):
                 inputs.append(("kind", dict(N=3, basis=b, gates=[mk_gate(name, t, c, rng)])))
+    # 1b. explicit GLOBALPHASE gates next to every kind whose decomposition emits a phase marker (before, after, between), and
+    #     pairs of such kinds: adjacent markers in the intermediate lists
+    phase_kinds = ["GLOBALPHASE", "SNOT", "H", "SQRTNOT", "PHASEGATE", "X", "Y", "Z", "TOFFOLI", "CSIGN", "ISWAP", "FREDKIN", "SWAP", "CNOT"]
+    pspecs = [None, "CSIGN", "ISWAP", "SQRTISWAP", ["ISWAP", "RX", "RZ"], ["CNOT", "RY", "RZ"], ["SQRTSWAP", "RX", "RY"], NATIVE[0]]
+
+    def gp():
+        return ["GLOBALPHASE", [], [], rng.choice([0.3, -2.75, math.pi / 4, 7.0])]
+    for name in phase_kinds:
+        for b in (pspecs if ctx.thorough else rng.sample(pspecs, 4)):
+            t, c = placements(name, 3, rng, False)[0]
+            g = mk_gate(name, t, c, rng)
+            for gs in ([gp(), g], [g, gp()], [gp(), g, gp()]):
+                inputs.append(("phase-adjacent", dict(N=3, basis=b, gates=gs)))
+    for _ in range(ctx.n(30, 300)):
+        n1, n2 = rng.choice(phase_kinds), rng.choice(phase_kinds)
+        gs = []
+        for nm in (n1, n2):
+            t, c = placements(nm, 3, rng, False)[0]
+            gs.append(mk_gate(nm, t, c, rng))
+        if rng.random() < 0.5:
+            gs.insert(rng.randrange(3), gp())
+        inputs.append(("phase-adjacent", dict(N=3, basis=rng.choice(pspecs), gates=gs)))
     # 2. gates without a rule: refused unless requested; edge / invalid specifications
     for name in OTHERS:
         for b in rng.sample(specs, ctx.n(6, len(specs))) + ["CNOT", "CSIGN", "ISWAP", "SQRTSWAP", "SQRTISWAP"]:
@@ -509,6 +581,7 @@ def gen_transpile(ctx):
     rng = ctx.rng
     out = []
     one = ["X", "Y", "Z", "SNOT", "SQRTNOT", "PHASEGATE", "RX", "RY", "RZ"]
+    # (explicit GLOBALPHASE gates are not offered to transpile: the routing pass is outside this property)
     for _ in range(ctx.n(24, 160)):
         N = rng.choice([2, 3])
         gs = []
@@ -551,7 +624,7 @@ def _nontrivial(inp, impl):
 
 def correspond(ctx):
     corr = Corr(rule="every gate kind x every valid basis specification (5 strings, 5x4 lists, native sets, default) x placements on "
-                     "3 qubits, gates without a rule, edge/invalid specifications, random sequences on 2-4 qubits, malformed stream; "
+                     "3 qubits, explicit GLOBALPHASE gates next to every phase-producing kind, gates without a rule, edge/invalid specifications, random sequences on 2-4 qubits, malformed stream; "
                      "non-trivial = the decomposition changes the gate list or is refused")
     inputs = load_corpus() + gen_inputs(ctx)
     seen = set()
@@ -641,8 +714,6 @@ def search(ctx, broken):
     out = []
     seen = set()
     for kind, inp in load_corpus() + gen_inputs(T()):
-        if kind == "malformed":
-            continue
         for what, obs, exp in _fails(inp):
             if what not in seen:
                 seen.add(what)
